@@ -174,9 +174,17 @@ def run_mock(rec, rnd, case, cycles):
 
         async def drv(ctx):
             for cyc in range(cycles):
-                ctx.set(dut.go, rnd.random() < pgo)
                 a = rnd.randrange(256)
                 ctx.set(dut.arg, a)
+                if rnd.random() < 0.15:
+                    # glitch: the caller is enabled for part of the cycle only and is not enabled at the clock edge;
+                    # the mock body may be evaluated, but no call executes, so no effect may be applied
+                    ctx.set(dut.go, 1)
+                    await ctx.delay(rnd.choice([1e-7, 3e-7, 6e-7]))
+                    ctx.set(dut.go, 0)
+                    rec.count("glitch_cycles")
+                else:
+                    ctx.set(dut.go, rnd.random() < pgo)
                 before = ctx.get(dut.execs)
                 await ctx.tick()
                 after = ctx.get(dut.execs)
@@ -233,5 +241,5 @@ RULE = ("TestbenchIO.call / call_try / CallTrigger with two methods against a DU
         "a method called by a transaction with random activity, effects logged and compared with the hardware execution counter; distinct non-trivial "
         "case = (helper, waited cycles / outcome / mock parameters)")
 ASSUMPTIONS = ["the readiness process and the caller are separate testbenches synchronised on the clock"]
-MINIMA = {"quick": {"call": 400, "call_try": 400, "call_try_none": 100, "call_waited": 100, "call_trigger": 150, "mock_calls": 2000, "distinct": 15},
+MINIMA = {"quick": {"call": 400, "call_try": 400, "call_try_none": 100, "call_waited": 100, "call_trigger": 150, "mock_calls": 2000, "glitch_cycles": 300, "distinct": 15},
           "thorough": {"call": 20000, "mock_calls": 100000, "distinct": 20}}
